@@ -164,6 +164,38 @@ func runRoundTrips(t *testing.T, r *ev.Rec, prefix string, codecs []codec, gobFo
 		r.Cells(len(cells)*len(codecs), done)
 		r.Exhaustive("cells", !r.Replaying())
 	}
+	// the text cells again with the package's configurable default language set to a real tag: the codecs write and read what the
+	// value holds, whatever the convenience constructors are configured to use
+	if r.WantLayer("default-lang", true) {
+		cells, _ := vocab.SingleCells(gobForm)
+		saved := ap.DefaultLang
+		total, done := 0, 0
+		for _, dl := range []ap.LangRef{"en", "fr"} {
+			ap.DefaultLang = dl
+			for _, c := range codecs {
+				for _, cell := range cells {
+					if cell.Field.Kind != vocab.KNLV {
+						continue
+					}
+					total++
+					id := fmt.Sprintf("DefaultLang=%s %s %s", dl, c.name, cell.ID)
+					if !r.WantCell(id) {
+						continue
+					}
+					done++
+					ds, _ := roundTrip(c, cell.Value, prefix, cell.Type.Name()+"."+cell.Field.Name)
+					for k := range ds {
+						ds[k].Key += " default-lang"
+					}
+					r.Case(id, true, "default-lang")
+					reportAll(r, "default-lang", id, ds, map[string]interface{}{"entry": c.name, "cell": cell.ID, "default_lang": string(dl)})
+				}
+			}
+		}
+		ap.DefaultLang = saved
+		r.Cells(total, done)
+		r.Exhaustive("default-lang", !r.Replaying())
+	}
 	if r.WantLayer("everything", true) {
 		for _, c := range codecs {
 			for _, st := range vocab.StructTypes {
